@@ -319,6 +319,9 @@ func (p *valParser) val() interface{} {
 		if off != 0 {
 			loc = time.FixedZone("", off)
 		}
+		if len(f) > 2 { // a location with a name of its own
+			loc = time.FixedZone(string(unhx(f[2])), off)
+		}
 		return time.Unix(sec.Int64(), nsec.Int64()).In(loc)
 	case 'A':
 		n, _ := strconv.Atoi(t[1:])
